@@ -68,17 +68,17 @@ pub fn unit_count(prop: &str, tier: Tier) -> u64 {
     let (q, t) = match prop {
         "C01" => (60_000, 6_000_000),
         "C02" => (50_000, 5_000_000),
-        "C03" => (40_000, 4_000_000),
+        "C03" => (40_000, 1_500_000),
         "C04" => (200_000, 20_000_000),
-        "C05" => (40_000, 4_000_000),
-        "C06" => (60_000, 4_000_000),
-        "C07" => (12_000, 800_000),
-        "C08" => (8_000, 500_000),
-        "C09" => (40_000, 4_000_000),
+        "C05" => (40_000, 3_000_000),
+        "C06" => (60_000, 2_000_000),
+        "C07" => (12_000, 600_000),
+        "C08" => (8_000, 400_000),
+        "C09" => (40_000, 1_000_000),
         "C10" => (100_000, 6_000_000),
         "C11" => (6_000, 150_000),
         "C12" => (300_000, 20_000_000),
-        "C17" => (100_000, 5_000_000),
+        "C17" => (100_000, 2_000_000),
         "C18" => (40_000, 3_000_000),
         "C19" => (400_000, 40_000_000),
         "C13" => (20_000, 1_000_000),
